@@ -6,6 +6,7 @@
   the datagrams that arrive, `scanWindow` over a timed queue.
 -/
 import Rsdns.Model.Client
+import Rsdns.Lemmas.Guards
 
 set_option linter.unusedVariables false
 
@@ -23,6 +24,8 @@ theorem accept_sound (id : Nat) (qname : Bytes) (qtype qclass : Nat) (d : Bytes)
       mr1.question d .theQuestion = (.ok (.owned q), mr2) ∧ q.qtype = qtype ∧ q.qclass = qclass ∧
       nameEqStr q.qname qname = true := by
   unfold udpAccept at h
+  unfold Generated.std_udp_id_reject Generated.std_udp_question_match at h
+  simp only [bne_iff_ne] at h
   split at h <;> try (simp at h; done)
   rename_i mr hn
   split at h <;> try (simp at h; done)
@@ -32,12 +35,13 @@ theorem accept_sound (id : Nat) (qname : Bytes) (qtype qclass : Nat) (d : Bytes)
   · rename_i hid
     split at h <;> try (simp at h; done)
     rename_i q mr2 hq
-    split at h
-    · rename_i hc
+    by_cases hc : (q.qtype == qtype && q.qclass == qclass && nameEqStr q.qname qname) = true
+    · rw [if_pos hc] at h
       simp only [Bool.and_eq_true, beq_iff_eq] at hc
       simp only [Option.some.injEq] at h
       exact ⟨mr, hd, mr1, q, mr2, hn, hh, by simpa using hid, h, hq, hc.1.1, hc.1.2, hc.2⟩
-    · simp at h
+    · rw [if_neg hc] at h
+      simp at h
 
 /-- **C12 / first match.** The loop returns the first datagram (in arrival order) that passes the
     filter, with exactly its bytes; everything before it was ignored. -/
@@ -106,5 +110,29 @@ theorem reject_short (id : Nat) (qname : Bytes) (qtype qclass : Nat) (d : Bytes)
       rw [hcur]; simp [Cur.len, Cur.new, Generated.HEADER_LENGTH]; omega
     simp [hl]
   simp [this]
+
+/-! ### the filter expressions regenerated from the sources
+
+`udpAccept` evaluates `Generated.std_udp_id_reject` and `Generated.std_udp_question_match`, which
+`tools/extract.py` rewrites on every run from the text of `udp_receive_loop` in
+`src/clients/std/client_impl.rs`; the copies taken from `templates/async_client_impl.rs` (tokio, async-std,
+smol) are `Generated.async_*`.  The two theorems below are therefore obligations on the SOURCE: a conjunct
+dropped or weakened in either loop, or a comparison changed in only one of them, stops them (and
+`accept_sound`) from checking. -/
+
+/-- the async template filters with the same two expressions as the blocking client -/
+theorem async_filter_is_std :
+    (∀ hid mid, Generated.async_udp_id_reject hid mid = Generated.std_udp_id_reject hid mid) ∧
+    (∀ t c n, Generated.async_udp_question_match t c n = Generated.std_udp_question_match t c n) :=
+  ⟨fun _ _ => rfl, fun _ _ _ => rfl⟩
+
+/-- what the source's filter says: a datagram is passed over iff its ID differs; it is accepted iff type,
+    class and name all match -/
+theorem filter_closed_form (hid mid : Nat) (t c n : Bool) :
+    (Generated.std_udp_id_reject hid mid = true ↔ hid ≠ mid) ∧
+    (Generated.std_udp_question_match t c n = true ↔ t = true ∧ c = true ∧ n = true) := by
+  constructor
+  · rw [std_udp_id_reject_eq]; simp
+  · rw [std_udp_question_match_eq]; simp [and_assoc]
 
 end Rsdns.C12
